@@ -345,6 +345,12 @@ func (h *FBDNSDB) Reload(s ReloadSignal) (err error) {
 		newPath = h.dbConfig.Path
 	}
 
+	if h.dnsdb == nil {
+		// Load never succeeded: there is no backend to reload, and db.Reload would
+		// dereference the nil DB in its own goroutine and take the process down
+		return fmt.Errorf("no database loaded, cannot reload")
+	}
+
 	var newDB *db.DB
 	newDB, err = h.dnsdb.Reload(newPath, h.dbConfig.ValidationKey, h.dbConfig.ReloadTimeout)
 	if err != nil {
